@@ -147,6 +147,28 @@ let handle (toks : string list) (impl : string list) : string * string =
            | Err -> "err:change" | Panic -> "panic" | OutOfFuel -> "outoffuel") in
        (m, show_verdict (judge_build cfg observed fulln topup))
      | _ -> ("driver-unparsed", "fails:-"))
+  | "txsize" ->
+    let mts = num c in
+    let cfg = { c_cpb = nn "4310"; c_max_value_size = nn "5000"; c_max_tx_size = mts } in
+    if next c <> "I" then failwith "I";
+    let nin = int_ c in
+    let _ins = rep nin (fun () -> let coin = num c in let ma = p_ma c in (coin, ma)) in
+    if next c <> "O" then failwith "O";
+    let nout = int_ c in
+    let req = rep nout (fun () -> p_out c) in
+    let admitted = (match add_outputs cfg [] req with Ok _ -> true | _ -> false) in
+    (match impl with
+     | [] -> ((if admitted then "admitted" else "err:addout"), "na")
+     | ["err:addout"] -> ((if admitted then "admitted" else "err:addout"), "holds")
+     | ["err:size"] -> ("skip err:size", "holds")
+     | ["ok"; full; txlen] ->
+       let m = if not admitted then "err:addout" else (match build_guard cfg (nn full) with Ok _ -> "ok " ^ full ^ " " ^ txlen | _ -> "toobig " ^ full) in
+       let big = if BZ.compare (BZ.of_string full) (BZ.of_string txlen) >= 0 then full else txlen in
+       (m, show_verdict (judge_build cfg [] (nn big) None))
+     | ["toobig"; full] ->
+       let m = if not admitted then "err:addout" else (match build_guard cfg (nn full) with Ok _ -> "ok " ^ full | _ -> "toobig " ^ full) in
+       (m, "holds")
+     | _ -> ("driver-unparsed", "fails:-"))
   | k -> failwith ("unknown case kind " ^ k)
 
 let () = run_driver handle
